@@ -1,6 +1,7 @@
 package stack
 
 import (
+	"encoding/json"
 	"reflect"
 	"time"
 
@@ -308,6 +309,24 @@ func (w *World) execOp(op hx.Zs) []hx.Zs {
 				ret = append(ret, append(z, fromFeatureAddr(s.ClientFeature.Address()).enc()...))
 			}
 		}
+		// The list reported TO the peer: it asks the node management for its subscription / binding
+		// list over its connection (nodeManagementSubscriptionData / nodeManagementBindingData call,
+		// NodeManagement.processRead{Subscription,Binding}Data) and the reply must be the same list,
+		// ids included.  Equal lists are one listing; otherwise both are returned (the wire list first)
+		// and cannot be the model's listing.  A connected peer that gets no reply: [4 p 6].
+		if !pr.gone {
+			wire, answered := w.wireListing(p, code == 14)
+			if answered {
+				ovCount("listing-read-over-the-wire-answered")
+			}
+			switch {
+			case !answered:
+				ovCount("listing-read-over-the-wire-unanswered")
+				ret = append(ret, hx.Zs{4, p, 6})
+			case !sameListing(wire, ret):
+				ret = append(wire, ret...)
+			}
+		}
 	case 16, 17, 18, 19: // client-side requests / bookkeeping
 		f := r.n()
 		e := r.eaddr()
@@ -353,4 +372,85 @@ func (w *World) execOp(op hx.Zs) []hx.Zs {
 		}
 	}
 	return ret
+}
+
+func sameListing(a, b []hx.Zs) bool {
+	if len(a) != len(b) {
+		return false
+	}
+	for i := range a {
+		if len(a[i]) != len(b[i]) {
+			return false
+		}
+		for j := range a[i] {
+			if a[i][j] != b[i][j] {
+				return false
+			}
+		}
+	}
+	return true
+}
+
+// wireListing lets peer p read its subscription (sub) or binding list through the local node
+// management and returns the entries of the reply in the encoding of the listing observation.
+// Everything written to p in answer to the read is taken out of the log.
+func (w *World) wireListing(p int64, sub bool) ([]hx.Zs, bool) {
+	w.readCtr++
+	ctr := 1000000 + w.readCtr
+	h := header(nmAddr(w.peerDev(p)), nmAddr(devPtr(1)), ctr, nil, false, model.CmdClassifierTypeCall)
+	var cmd model.CmdType
+	if sub {
+		cmd.NodeManagementSubscriptionData = &model.NodeManagementSubscriptionDataType{}
+	} else {
+		cmd.NodeManagementBindingData = &model.NodeManagementBindingDataType{}
+	}
+	w.inject(p, model.DatagramType{Header: h, Payload: model.PayloadType{Cmd: []model.CmdType{cmd}}})
+	w.mu.Lock()
+	items := w.log
+	w.log = nil
+	var mine []logItem
+	for _, it := range items {
+		if it.ski == p {
+			var d model.Datagram
+			if json.Unmarshal(it.msg, &d) == nil && d.Datagram.Header.MsgCounterReference != nil &&
+				int64(*d.Datagram.Header.MsgCounterReference) == ctr {
+				mine = append(mine, it)
+				continue
+			}
+		}
+		w.log = append(w.log, it)
+	}
+	w.mu.Unlock()
+	var out []hx.Zs
+	answered := false
+	entry := func(id *uint, srv, cli *model.FeatureAddressType) {
+		z := hx.Zs{8, -1}
+		if id != nil {
+			z[1] = int64(*id)
+		}
+		z = append(z, fromFeatureAddr(srv).enc()...)
+		out = append(out, append(z, fromFeatureAddr(cli).enc()...))
+	}
+	for _, it := range mine {
+		var d model.Datagram
+		_ = json.Unmarshal(it.msg, &d)
+		hd := d.Datagram.Header
+		if hd.CmdClassifier == nil || *hd.CmdClassifier != model.CmdClassifierTypeReply || len(d.Datagram.Payload.Cmd) != 1 {
+			continue
+		}
+		c := d.Datagram.Payload.Cmd[0]
+		switch {
+		case sub && c.NodeManagementSubscriptionData != nil:
+			answered = true
+			for _, e := range c.NodeManagementSubscriptionData.SubscriptionEntry {
+				entry((*uint)(e.SubscriptionId), e.ServerAddress, e.ClientAddress)
+			}
+		case !sub && c.NodeManagementBindingData != nil:
+			answered = true
+			for _, e := range c.NodeManagementBindingData.BindingEntry {
+				entry((*uint)(e.BindingId), e.ServerAddress, e.ClientAddress)
+			}
+		}
+	}
+	return out, answered
 }
